@@ -286,6 +286,84 @@ func (c *Ctx) concurrentReaders(t *Tree, k int) {
 	c.St.Eval("readers:"+t.Token(), true)
 }
 
+// concurrentDerivers: goroutines derive new containers from one shared, never modified list whose storage has a
+// history (spare capacity after one-by-one growth, Pop, Delete, Clear) and then write into their OWN results.  Every
+// goroutine must hold exactly what it would hold alone: a deriving operation that reuses the receiver's storage
+// makes the results overwrite one another (and is a data race inside a read-only operation).
+func (c *Ctx) concurrentDerivers(k int) {
+	m := c.M
+	histories := map[string]func() at.List{
+		"grown one by one": func() at.List {
+			l := at.NewList()
+			for i := 0; i < 3; i++ {
+				l.Add(i)
+			}
+			return l
+		},
+		"after Pop":    func() at.List { l := at.NewList(0, 1, 2, 3, 4); l.Pop(); l.Pop(); return l },
+		"after Delete": func() at.List { l := at.NewList(0, 1, 2, 3, 4, 5); l.Delete(1, 3); return l },
+		"after Clear":  func() at.List { l := at.NewList(0, 1, 2, 3); l.Clear(); l.Add(7); return l },
+		"sublist":      func() at.List { return at.NewList(0, 1, 2, 3, 4, 5).SubList(1, 3) },
+		"full":         func() at.List { return at.NewList(0, 1, 2) },
+		"empty grown":  func() at.List { l := at.NewList(1, 2, 3, 4); l.Clear(); return l },
+	}
+	names := make([]string, 0, len(histories))
+	for n := range histories {
+		names = append(names, n)
+	}
+	sort.Strings(names)
+	for _, name := range names {
+		l := histories[name]()
+		base := l.Slice()
+		before := treeOf(l).Token()
+		derive := func(g int) (string, string) {
+			tail := at.NewList(1000+g, 2000+g)
+			want := append(append([]any{}, base...), 1000+g, 2000+g)
+			c1 := l.Concat(tail)
+			c2 := l.SubList(0, len(base)).Add(3000 + g)
+			c3 := l.Clone().Add(4000 + g)
+			c4 := l.Filter(func(any) bool { return true }).Add(5000 + g)
+			c5 := l.Map(func(i int, v any) any { return v }).Add(6000 + g)
+			runtime.Gosched()
+			c1.Add(7000 + g)
+			got := fmt.Sprint(c1.Slice(), c2.Slice(), c3.Slice(), c4.Slice(), c5.Slice())
+			w := func(x int) []any { return append(append([]any{}, base...), x) }
+			exp := fmt.Sprint(append(append([]any{}, want...), 7000+g), w(3000+g), w(4000+g), w(5000+g), w(6000+g))
+			return got, exp
+		}
+		var wg sync.WaitGroup
+		got, exp := make([]string, k), make([]string, k)
+		for g := 0; g < k; g++ {
+			wg.Add(1)
+			go func(g int) {
+				defer wg.Done()
+				defer func() {
+					if r := recover(); r != nil {
+						got[g] = "panic: " + fmt.Sprint(r)
+					}
+				}()
+				for rep := 0; rep < 4; rep++ {
+					got[g], exp[g] = derive(g)
+					if got[g] != exp[g] {
+						return
+					}
+				}
+			}(g)
+		}
+		wg.Wait()
+		for g := range got {
+			if got[g] != exp[g] {
+				m.Alarm("C15", fmt.Sprintf("%d goroutines deriving from one shared unmodified list %v (%s): goroutine %d holds %s, alone it holds %s", k, base, name, g, got[g], exp[g]))
+				break
+			}
+		}
+		if treeOf(l).Token() != before {
+			m.Alarm("C15", fmt.Sprintf("deriving operations modified the shared list (%s)", name))
+		}
+		c.St.Eval("derivers:"+name, true)
+	}
+}
+
 func runC15(c *Ctx) {
 	r := c.R
 	c.St.Rule = "async calls under controlled schedules: callbacks block until the controller releases them in a chosen completion order (all n! orders for small n, random orders for larger n), for n = 0, 1, ... and GOMAXPROCS in {1, 2, 16}; the observed event trace is validated against the goroutine LTS; plus concurrent read-only use of shared containers under the race detector; non-trivial = n >= 2; distinct by (kind, n, order)"
@@ -387,6 +465,10 @@ func runC15(c *Ctx) {
 	c.M.Case("concurrent-independent")
 	for rep := 0; rep < c.N(6, 40); rep++ {
 		c.concurrentIndependent(8)
+	}
+	c.M.Case("concurrent-derivers")
+	for _, k := range []int{2, 8} {
+		c.concurrentDerivers(k)
 	}
 	// concurrent readers
 	c.M.Case("concurrent-readers")
